@@ -201,7 +201,10 @@ where
         encrypted_data: &[u8],
         reference: &MediaReference,
     ) -> Result<Vec<u8>, EncryptedMediaError> {
-        let search_term = format!("x {}", hex::encode(reference.original_hash));
+        // The nonce is unique per upload. The content hash is not: the same file announced
+        // again in a later epoch has the same `x` field, and the lookup would name only one
+        // of the two epochs.
+        let search_term = format!("n {}", hex::encode(reference.nonce));
 
         let epoch = self
             .mdk
